@@ -168,6 +168,57 @@ def rule_signal(ctx, rule='C10.SIGNAL'):
     return n
 
 
+def rule_byheight_fields(ctx, rule='C10.BYHEIGHTCLEAR'):
+    """Every container of the session manager that is filled under a key derived from a block height holds data of *the
+    block that was at that height*: the reorg handler must empty it (heights are re-used by the replacing blocks).  The
+    fields are discovered, not listed: a container created in __init__ (lrucache / dict / defaultdict) that some method
+    stores into under a key mentioning a height."""
+    rel = ctx.repo.path('sess')
+    meths = [f for f in ctx.repo.funcs.values() if f.unit.relpath == rel and f.cls == 'SessionManager']
+    init = ctx.func('sess', 'SessionManager.__init__')
+    h = ctx.func('sess', 'SessionManager._handle_chain_reorgs')
+    containers = {}
+    for s_ in init.own_nodes():
+        if isinstance(s_, ast.Assign) and len(s_.targets) == 1 and isinstance(s_.targets[0], ast.Attribute) \
+                and isinstance(s_.targets[0].value, ast.Name) and s_.targets[0].value.id == 'self':
+            v = s_.value
+            kind = None
+            if isinstance(v, ast.Dict) and not v.keys:
+                kind = 'dict'
+            elif isinstance(v, ast.Call) and norm(v.func).split('.')[-1] in ('lrucache', 'dict', 'defaultdict', 'OrderedDict', 'LRUCache'):
+                kind = norm(v.func)
+            if kind:
+                containers['self.' + s_.targets[0].attr] = kind
+    cleared = set()
+    for c in q.own_calls(h):
+        if isinstance(c.func, ast.Attribute) and c.func.attr == 'clear':
+            cleared.add(ctx.res.canon(c.func.value, h))
+    for s_ in h.own_nodes():
+        if isinstance(s_, ast.Assign):
+            for t in s_.targets:
+                if isinstance(t, ast.Attribute):
+                    cleared.add(ctx.res.canon(t, h))
+    n = 0
+    for fld, kind in sorted(containers.items()):
+        keyed = []
+        for f in meths:
+            for s_ in f.own_nodes():
+                tgts = s_.targets if isinstance(s_, ast.Assign) else []
+                for t in tgts:
+                    if isinstance(t, ast.Subscript) and ctx.res.canon(t.value, f) == fld:
+                        names = {x.id for x in ast.walk(t.slice) if isinstance(x, ast.Name)} | {x.attr for x in ast.walk(t.slice) if isinstance(x, ast.Attribute)}
+                        if any('height' in nm.lower() for nm in names):
+                            keyed.append(f'{f.qual}: {norm(s_)[:60]}')
+        if not keyed:
+            continue
+        n += 1
+        ctx.check(fld in cleared, rule, ctx.key(h, None, f'{fld} emptied on reorg'),
+                  f'{fld} (filled by height) is emptied by the reorg handler',
+                  f'{fld} is filled under a block height ({keyed[0]}) but the reorg handler does not empty it: after a reorganisation '
+                  'it answers with the data of the orphaned block at that height', loc=ctx.loc(h, h.node))
+    return n
+
+
 def rule_byheight(ctx, rule='C10.BYHEIGHT'):
     '''fs_tx_hashes_at_blockheight refuses heights above the flushed height (files and tx_counts run ahead of it).'''
     f = ctx.func('db', 'DB.fs_tx_hashes_at_blockheight')
@@ -217,6 +268,7 @@ def run(ctx):
     from . import c03 as _c03
     ctx.rule('C10.MEMO', lambda: _c03.rule_memo(ctx, 'C10.MEMO'), 12)
     ctx.rule('C10.BYHEIGHT', lambda: rule_byheight(ctx), 2)
+    ctx.rule('C10.BYHEIGHTCLEAR', lambda: rule_byheight_fields(ctx), 2)
     from . import c11 as _c11h, c09 as _c09h
     ctx.rule('C10.HEADERSRC', lambda: _c11h.rule_header_source(ctx, 'C10.HEADERSRC'), 1)
     ctx.rule('C10.HANDOVER', lambda: _c09h.rule_refresh_handover(ctx, 'C10.HANDOVER'), 3)
